@@ -236,7 +236,9 @@ class Scope(FortranObj):
                     find_word=use_stmnt.mod_name,
                 )
                 errors.append(new_diag)
-        if (self.implicit_line is not None) and (last_use_line >= self.implicit_line):
+        # Statements sharing a line (``use m; implicit none``) cannot be ordered by
+        # line number: only a USE on a later line is certainly misplaced
+        if (self.implicit_line is not None) and (last_use_line > self.implicit_line):
             new_diag = Diagnostic(
                 self.implicit_line - 1,
                 message="USE statements after IMPLICIT statement",
